@@ -217,6 +217,10 @@ def evaluate(lines, impl, model):
 
 
 def run(ctx):
+    from checks import c03
+    from tools import circuit_access
+    uses, nfun, terr = c03.regenerate_access()    # route-1 translator: table of Circuit's member functions, before the proof build
+    methods = getattr(c03.regenerate_access, "methods", []) if terr is None else []
     proof_ok, proof = common.proof_status(ctx, "C10")
     harness = common.build_harness("api")
     driver = common.build_driver("api")
@@ -237,13 +241,28 @@ def run(ctx):
                           {"broken": "correspondence of coq/Api.v (theorems of Properties_C10.v)",
                            "first_difference": {"case": mism[0][0], "format": FORMAT, "implementation_around_token": mism[0][1],
                                                 "model_around_token": mism[0][2], "token": mism[0][3]}}, found_input=False)
-        if not proof_ok:
-            ctx.violation("proof obligations of Properties_C10.v do not check", {"broken": "Properties_C10.v", "detail": proof}, found_input=False)
+        if terr is not None:
+            ctx.violation("tools/circuit_access.py cannot translate the tree under check (%s): c10_structural_setters_guarded_in_source is not established; no scenario "
+                          "violating C10 found" % terr[:300],
+                          {"broken": "tools/circuit_access.py -> coq/CircuitAccess_gen.v -> c10_structural_setters_guarded_in_source", "detail": terr}, found_input=False)
+        elif not proof_ok:
+            badm = circuit_access.offending_methods(methods)
+            if badm:
+                ctx.violation("theorem c10_structural_setters_guarded_in_source does not hold for the table generated from this tree: %s; no generated scenario violates C10"
+                              % badm[0], {"broken": "c10_structural_setters_guarded_in_source (Properties_C10.v) over coq/CircuitAccess_gen.v", "offending_methods": badm[:20],
+                                          "detail": proof}, found_input=False)
+            else:
+                ctx.violation("proof obligations of Properties_C10.v do not check", {"broken": "Properties_C10.v", "detail": proof}, found_input=False)
     if crashed and len(crashed) * 50 > len(lines):
         ctx.violation("the harness got no outcome for %d of %d scenario runs (abort/crash inside a placement call): the correspondence cannot be established"
                       % (len(crashed), len(lines)), {"broken": "harness runs", "first": {"case": crashed[0][0], "output": crashed[0][1]}}, found_input=False)
     cov = dict(proof)
-    cov.update({"trusted_base": common.TRUSTED_BASE + [
+    cov.update({"static_method_table": {"member_functions": len(methods), "non_const": sum(1 for m in methods if not m["const"]),
+                                        "guarded": sorted(m["name"] for m in methods if any(u[1] == "UGuard" for u in m["uses"])),
+                                        "translator_error": terr},
+                "trusted_base": common.TRUSTED_BASE + [
+                    "tools/circuit_access.py (translator, clang++ 14 -ast-dump=json): the table of Circuit's member functions (guard line, fields written) that "
+                    "c10_structural_setters_guarded_in_source is about; line order stands for execution order inside a setter (straight-line code)",
                     "what the algorithms compute is not modelled: the model is run with the placements the implementation exposed (theorems hold for every oracle)",
                     "addNet/setNets argument tests (sizes, limits start at 0 and sorted, pins on existing cells) are modelled and exercised with acceptable and unacceptable arguments"],
                 "evaluations": len(lines), "distinct_nontrivial": len(nontriv),
